@@ -567,7 +567,7 @@ pub fn replay(path: &str) -> i32 {
     let topo_name = r["topo"].as_str().expect("topo").to_string();
     let topo: &'static str = TOPOLOGIES
         .iter()
-        .chain(["L4", "refuse", "silent-all"].iter())
+        .chain(["L4", "refuse", "silent-all", "far-target-late"].iter())
         .find(|t| **t == topo_name)
         .copied()
         .expect("MACHINERY: unknown topo in replay");
